@@ -371,6 +371,15 @@ Error BaseBuilder::section_node_of(Out<SectionNode*> out, uint32_t section_id) {
 }
 
 Error BaseBuilder::section(Section* section) {
+  if (ASMJIT_UNLIKELY(!_code)) {
+    return make_error(Error::kNotInitialized);
+  }
+
+  // The section must be the one the attached CodeHolder holds under that id (like BaseAssembler::section()).
+  if (ASMJIT_UNLIKELY(!_code->is_section_valid(section->section_id()) || _code->section_by_id(section->section_id()) != section)) {
+    return report_error(make_error(Error::kInvalidSection));
+  }
+
   SectionNode* node;
   ASMJIT_PROPAGATE(section_node_of(Out(node), section->section_id()));
   ASMJIT_ASSUME(node != nullptr);
